@@ -734,6 +734,14 @@ func c07Gen(g *Gen) {
 		if r.Chance(8) { // the odd type the derivation refuses
 			st.Fields = append(st.Fields, c08Field{Tag: "bad", T: c08Ptr(c08Ptr(c08Leaf("i32")))})
 		}
+		if r.Chance(12) { // a binary column named "request" that is NOT alone: must not be unwrapped
+			f := c08Field{Tag: "request", T: c08Leaf("bytes")}
+			if r.Bool() {
+				st.Fields = append([]c08Field{f}, st.Fields...)
+			} else {
+				st.Fields = append(st.Fields, f)
+			}
+		}
 		c07AddDefaults(r, st)
 		tyToks := strings.Join(st.tokens(), " ")
 		declSchema, err := vgirpc.VerifC08DeriveSchema(st.rtype())
